@@ -82,7 +82,7 @@ CHECKS.update({
 CHECKS.update({
  "C04": dict(
    text="Theorems (all under the guard that only the ROOT holds a single leaf without oid): C04_footprint_set_partial / C04_footprint_del_partial (every stored object whose record would differ after an insert / delete was marked changed by that operation -- each modification is announced), C04_commit_partial (a commit that dumps, in ANY order, every registered object and every object that received an oid brings every record up to date), C04_reader_partial (a fresh reader of up-to-date records sees precisely the writer's contents, by descent and along the leaf chain, in a state satisfying the stored invariant), C04_run_partial (the run-level statement: for EVERY history of public calls and commits, commits anywhere and in any complete dump order, during which the guard holds, a fresh reader after a final commit sees exactly the writer's contents in a sound tree; both implementations' switches, all node sizes), and C04_refuted (without the guard the statement is false: witness tree and dump order, the reader gets two copies of a leaf -- finding F16). The model (events -> registration, getstate with the embedding rule, order-dependent commit, reader) is compared with C and Python through a data manager: registered and read-current sets after every call, the dump sequence, the reader's view after every commit (the model predicts the F16 corruption exactly when it happens), aborts; the hypotheses of the theorems are evaluated as boolean checks on every real step / commit.",
-   note="Partial: guard no_embed_below (F16 is a recorded finding of both implementations); harness/minijar.py stands in for ZODB's connection (three dump orders); the run-level theorem covers all calls except the bulk forms (update, |=, &=, -=, ^=: folds of single inserts/deletes in the model, whose intermediate states would need the guard too); abort is modelled as restoring the last committed tree. Print Assumptions: closed.",
+   note="Partial: guard no_embed_below (F16 is a recorded finding of both implementations); the run-level theorem's commits write tree nodes only -- a real commit also writes registered objects that left the tree, and when one still references the leaf embedded in the root the hypothesis on the dump sequence is false and an update is lost (finding F33, recorded); harness/minijar.py stands in for ZODB's connection (three dump orders); the run-level theorem covers all calls except the bulk forms (update, |=, &=, -=, ^=: folds of single inserts/deletes in the model, whose intermediate states would need the guard too); abort is modelled as restoring the last committed tree. Print Assumptions: closed.",
    technique="Coq proofs about a hand-written persistence model (write footprint, order-independent commit under a guard, reader reconstruction, refutation witness) + differential correspondence through a mini data manager",
    ref="DESIGN.md section 6 C04"),
  "C16": dict(
